@@ -1,4 +1,6 @@
 pub mod gamespy;
+pub mod quake;
+pub mod unreal2;
 pub mod valve;
 pub mod game_tables {
     include!(concat!(env!("OUT_DIR"), "/game_tables.rs"));
